@@ -262,6 +262,12 @@ class Frame:
 
     def get(self, key):
         if key not in self.locals:
+            # a zero-sized closure (no captures) is never assigned in MIR: its value is its type
+            ty = (self.fn.locals.get(key) or self.fn.locals.get(f'_{key}') or '') if isinstance(self.fn.locals, dict) else ''
+            m = re.match(r'^\{closure@[^}]*\}$', ty.strip())
+            if m:
+                self.locals[key] = Agg('closure', [], m.group(0), fn_name=m.group(0))
+                return self.locals[key]
             raise Inconclusive(f'read of uninitialised local _{key} in {self.fn.name}')
         return self.locals[key]
 
